@@ -1,6 +1,7 @@
 import FqModel.Codec
 import Proofs.C14Codec
 import Proofs.C14Text
+import Proofs.C14Url
 import FqModel.C14Hash
 import FqModel.C14Json
 import Proofs.C14Json
@@ -68,6 +69,25 @@ theorem urlpath_roundtrip (s : Bytes) : urlUnescape false (urlEscape false s) = 
 example : urlEscape true (bytesOfAscii "a b+c/") = bytesOfAscii "a+b%2Bc%2F" := by decide
 example : urlEscape false (bytesOfAscii "a b+c/") = bytesOfAscii "a%20b+c%2F" := by decide
 example : urlUnescape true (bytesOfAscii "%4") = none ∧ urlUnescape true (bytesOfAscii "%zz") = none := by decide
+
+
+/-! ## URL query strings (stretch): `to_urlquery | from_urlquery` (format/text/url.go:35-82 over
+    net/url Values.Encode / ParseQuery).  A `url.Values` is an association list sorted by key with a
+    non-empty value list per key (`QueryWF`); fq shows one value as a string and several as an
+    array — so REPEATED KEYS survive, in order.  Holds for arbitrary byte strings as keys/values
+    (incl. "", "&", "=", ";", "%", non-UTF-8). -/
+
+theorem urlquery_roundtrip (q : QueryVals) (h : QueryWF q) : parseQuery (encodeQuery q) = some q :=
+  parseQuery_encodeQuery q h
+
+example : QueryWF [(bytesOfAscii "a", [bytesOfAscii "1", bytesOfAscii "2"]), (bytesOfAscii "b&=", [[]])] := by
+  refine ⟨by simp [ltBytes, bytesOfAscii], ?_⟩
+  intro kv hkv; simp at hkv; rcases hkv with rfl | rfl <;> simp
+example : encodeQuery [(bytesOfAscii "a", [bytesOfAscii "1", bytesOfAscii "2"]), (bytesOfAscii "b&=", [[]])]
+    = bytesOfAscii "a=1&a=2&b%26%3D=" := by decide
+/-- malformed query strings are errors (bad escape, semicolon separator); empty pieces are skipped -/
+example : parseQuery (bytesOfAscii "a=%zz") = none ∧ parseQuery (bytesOfAscii "a=1;b=2") = none ∧
+    parseQuery (bytesOfAscii "&&a=1&&a&") = some [(bytesOfAscii "a", [bytesOfAscii "1", []])] := by decide +kernel
 
 /-! ## ISO-8859-1 -/
 
@@ -147,6 +167,19 @@ example : Json.encode true (.obj [([], .str []), ("a-b".toList, .num (-1)), ("if
 example : Proofs.C14J.Canon (.obj [([], .str []), ("a-b".toList, .num (-1)), ("if".toList, .arr [.num (-2)])]) := by
   simp [Proofs.C14J.Canon, Proofs.C14J.CanonL, Proofs.C14J.CanonM, Json.ltKey]
 
+
+/-- indented output (stretch): `tojson({indent:n}) | fromjson` and `to_jq({indent:n}) | from_jq` for
+    every n (n = 0 is the compact text) — `encodeI jq n 0` is the colorjson / jq.jq layout: line
+    feed + depth·n spaces after `[` `{` `,`, before the closing bracket, one space after `:`. -/
+theorem json_indent_roundtrip (n : Nat) (v : Json.JV) (h : Proofs.C14J.Canon v) :
+    Json.parse (Json.encodeI false n 0 v) = .ok v [] := Proofs.C14J.parseWith_encodeI false n v h
+
+theorem jqlit_indent_roundtrip (n : Nat) (v : Json.JV) (h : Proofs.C14J.Canon v) :
+    Json.parseJq (Json.encodeI true n 0 v) = .ok v [] := Proofs.C14J.parseWith_encodeI true n v h
+
+example : Json.encodeI true 2 0 (.obj [("a".toList, .arr [.num 1, .obj []]), ("b c".toList, .null)])
+    = "{\n  a: [\n    1,\n    {}\n  ],\n  \"b c\": null\n}".toList := by decide
+
 /- The parser's behaviour on text the encoder never produces (duplicate keys: last wins; lone `\u`
    surrogates: U+FFFD; trailing data, leading zeros, trailing commas: error) is not stated as
    kernel-evaluated examples (the kernel is too slow on the fuel-driven parser); it is pinned by
@@ -155,7 +188,8 @@ example : Proofs.C14J.Canon (.obj [([], .str []), ("a-b".toList, .num (-1)), ("i
 /-! ## hash functions: the references of FqModel/C14Hash.lean (written from RFC 1321 / FIPS 180-4,
     SHA-2 constants computed from the primes) reproduce the published test vectors.  These are
     kernel-checked evaluations (`decide +kernel`), no algebraic claim is made: the model IS the
-    specification, and fq's to_md5/to_sha1/to_sha256/to_sha512 are compared with it on every
+    specification, and fq's to_md4/to_md5/to_sha1/to_sha256/to_sha512/to_sha3_{224,256,384,512} (all the hash
+    functions of format/crypto/hash.go; fq has no SHA-224/384/512-t) are compared with it on every
     generated input by the correspondence run. -/
 
 def asc (s : String) : List UInt8 := s.toList.map (fun c => UInt8.ofNat c.toNat)
@@ -183,6 +217,38 @@ theorem sha256_kat :
 theorem sha512_kat :
     Hash.sha512 (asc "abc") = unhexS ("ddaf35a193617abacc417349ae20413112e6fa4e89a97ea20a9eeee64b55d39a"
       ++ "2192992a274fc1a836ba3c23a3feebbd454d4423643ce80e2a9ac94fa54ca49f") := by decide +kernel
+
+
+/-- RFC 1320 A.5 (MD4) -/
+theorem md4_kat :
+    Hash.md4 (asc "") = unhexS "31d6cfe0d16ae931b73c59d7e0c089c0" ∧
+    Hash.md4 (asc "abc") = unhexS "a448017aaf21d8525fc10ae87aa6729d" ∧
+    Hash.md4 (asc "12345678901234567890123456789012345678901234567890123456789012345678901234567890")
+      = unhexS "e33b4ddc9c38f2199c3e7b164fcc0536" := by decide +kernel
+
+/-- FIPS 202 example values (NIST CSRC "SHA-3 examples": the empty message, and "abc") -/
+theorem sha3_224_kat :
+    Hash.sha3_224 (asc "") = unhexS "6b4e03423667dbb73b6e15454f0eb1abd4597f9a1b078e3f5b5a6bc7" := by decide +kernel
+
+theorem sha3_256_kat :
+    Hash.sha3_256 (asc "abc") = unhexS "3a985da74fe225b2045c172d6bd390bd855f086e3e9d525b46bfe24511431532" := by
+  decide +kernel
+
+theorem sha3_384_kat :
+    Hash.sha3_384 (asc "") = unhexS ("0c63a75b845e4f7d01107d852e4c2485c51a50aaaa94fc61995e71bbee983a2a"
+      ++ "c3713831264adb47fb6bd1e058d5f004") := by decide +kernel
+
+theorem sha3_512_kat :
+    Hash.sha3_512 (asc "") = unhexS ("a69f73cca23a9ac5c8b567dc185a756e97c982164fe25859e0d1dcc1475c80a6"
+      ++ "15b2123af1f5f94c11e3e9402c3ac558f500199d95b6d3e301758586281dcd26") := by decide +kernel
+
+/-- the computed Keccak round constants and rotation offsets are those tabulated in FIPS 202 / the
+    Keccak reference (first, second and last RC; offsets of lanes (1,0), (2,0), (0,1), (4,4)) -/
+theorem keccak_constants :
+    (Hash.keccakRC 0).toNat = 0x0000000000000001 ∧ (Hash.keccakRC 1).toNat = 0x0000000000008082 ∧
+    (Hash.keccakRC 23).toNat = 0x8000000080008008 ∧
+    Hash.keccakRho[1]! = 1 ∧ Hash.keccakRho[2]! = 62 ∧ Hash.keccakRho[5]! = 36 ∧ Hash.keccakRho[24]! = 14 := by
+  decide +kernel
 
 /-- the computed SHA-256 round constants are the ones printed in FIPS 180-4 §4.2.2 (first/last rows) -/
 theorem sha256_constants :
